@@ -134,6 +134,13 @@ func c15digest(i services.ServiceInfo) string {
 	return fmt.Sprintf("%s/%s/%s/%s/%s", strings.Join(i.Endpoints, "+"), machine, process, i.SessionId, i.ObjectUid)
 }
 
+// c15local is what the info of a service hosted by the directory's own server
+// carries (and the directory's own entry): the server's address, this machine,
+// this process, nothing else.
+func c15local() string {
+	return c15digest(services.ServiceInfo{Endpoints: []string{ServerAddr}, MachineId: util.MachineID(), ProcessId: util.ProcessID()})
+}
+
 func c15info(name string) services.ServiceInfo {
 	return services.ServiceInfo{Name: name, MachineId: "m", ProcessId: 77, Endpoints: []string{"tcp://other:1"}, SessionId: "s"}
 }
@@ -358,7 +365,7 @@ type c15reg struct {
 	ready   map[uint32]string
 	maxID   uint32
 	// ep is the endpoint an entry's info carries: what register gave, then
-	// what the last accepted update gave ("*": set by the hosting server)
+	// what the last accepted update gave (c15local: set by the hosting server)
 	ep map[uint32]string
 }
 
@@ -422,7 +429,7 @@ func (s c15reg) matches(observed string) bool {
 		if want, ok := s.ready[id]; !ok || want != name {
 			return false
 		}
-		if e := s.ep[id]; e != "*" && e != ep {
+		if e := s.ep[id]; e != ep {
 			return false
 		}
 	}
@@ -523,7 +530,7 @@ func c15step(s c15reg, in c15in, out c15out) (bool, c15reg) {
 					return false, s
 				}
 				idname, ep, _ := strings.Cut(out.out, "@")
-				return idname == fmt.Sprintf("%d:%s", id, name) && (s.ep[id] == "*" || s.ep[id] == ep), s
+				return idname == fmt.Sprintf("%d:%s", id, name) && s.ep[id] == ep, s
 			}
 		}
 		return !out.ok, s
@@ -583,16 +590,16 @@ func (c15) PostCheck(c *core.Case, env *core.Env, v *core.Verdict) {
 				if n, _ := fmt.Sscanf(h.Err, "Service id not found: %d", &id); n == 1 {
 					// the name was reserved (id) but the entry had been
 					// removed by somebody else before it was made ready
-					ops = append(ops, porcupine.Operation{ClientId: h.Client, Input: c15in{"register", h.Arg, 0, "*"}, Call: h.Call, Output: c15out{true, fmt.Sprint(id)}, Return: h.Ret})
+					ops = append(ops, porcupine.Operation{ClientId: h.Client, Input: c15in{"register", h.Arg, 0, c15local()}, Call: h.Call, Output: c15out{true, fmt.Sprint(id)}, Return: h.Ret})
 					ops = append(ops, porcupine.Operation{ClientId: h.Client + 100, Input: c15in{"ready", "", id, ""}, Call: h.Call, Output: c15out{false, ""}, Return: h.Ret})
 					continue
 				}
-				ops = append(ops, porcupine.Operation{ClientId: h.Client, Input: c15in{"register", h.Arg, 0, "*"}, Call: h.Call, Output: c15out{false, ""}, Return: h.Ret})
+				ops = append(ops, porcupine.Operation{ClientId: h.Client, Input: c15in{"register", h.Arg, 0, c15local()}, Call: h.Call, Output: c15out{false, ""}, Return: h.Ret})
 				continue
 			}
 			var id uint32
 			fmt.Sscan(h.Out, &id)
-			ops = append(ops, porcupine.Operation{ClientId: h.Client, Input: c15in{"register", h.Arg, 0, "*"}, Call: h.Call, Output: c15out{true, h.Out}, Return: h.Ret})
+			ops = append(ops, porcupine.Operation{ClientId: h.Client, Input: c15in{"register", h.Arg, 0, c15local()}, Call: h.Call, Output: c15out{true, h.Out}, Return: h.Ret})
 			ops = append(ops, porcupine.Operation{ClientId: h.Client + 100, Input: c15in{"ready", "", id, ""}, Call: h.Call, Output: c15out{true, ""}, Return: h.Ret})
 			continue
 		case "ready", "unregister", "terminate":
@@ -606,7 +613,7 @@ func (c15) PostCheck(c *core.Case, env *core.Env, v *core.Verdict) {
 	}
 	model := porcupine.Model{
 		Init: func() interface{} {
-			return c15reg{map[uint32]string{}, map[uint32]string{1: "ServiceDirectory"}, 1, map[uint32]string{1: "*"}}
+			return c15reg{map[uint32]string{}, map[uint32]string{1: "ServiceDirectory"}, 1, map[uint32]string{1: c15local()}}
 		},
 		Step: func(state, input, output interface{}) (bool, interface{}) {
 			ok, n := c15step(state.(c15reg), input.(c15in), output.(c15out))
